@@ -81,6 +81,10 @@ def run(check):
         lang = LANGS[h % 6]
         multi = (h // 6) % 2 == 0
         crates = rng.sample(["alpha", "beta-x", "gamma"], rng.randint(1, 3)) if multi else ["one"]
+        if multi and lang != "swift" and h % 4 == 0:
+            # two crates whose names differ in letter-case convention only: two crates, two module files (Swift's PascalCase file
+            # names collide here - C14's open finding swift-module-file-collision - so Swift is left out)
+            crates = ["ApiV2", "api_v2"] + crates[:1]
         versions = [make_version(rng, crates) for _ in range(rng.randint(2, 4))]
         versions.append(same_length_variant(rng, versions[0]))      # equal output size, different bytes
         if multi and rng.random() < 0.5 and len(crates) > 1:
